@@ -18,7 +18,8 @@ def plan(ctx):
         "units": units,
         "rule": ("every schema of the grammar G(draft) = singles, ALL ordered pairs of singles with "
                  "different keywords, sibling-group products and nested applicators (depth 2, arity 3), "
-                 "filtered by the real check_schema, x every instance of the universe U, x 4 drafts; "
+                 "filtered by the real check_schema, x every instance of the universe U (plus, except for the pairs, "
+                 "13 instances with integers beyond the double range and floats at the edges of exactness), x 4 drafts; "
                  "each (draft, schema, instance) is generated once (lists are de-duplicated by JSON text), "
                  "so evaluations are distinct; non-trivial = at least one keyword of the schema applies to "
                  "the instance's JSON type and the reference evaluator is exact on the case"),
@@ -28,6 +29,12 @@ def plan(ctx):
             "regular expressions restricted to the predicate table; float multipleOf only on dyadic operands",
         ],
     }
+
+
+# numbers beyond the double range and at the edges of exactness, alone and inside containers (they meet the
+# singles, the sibling groups and the nested schemas; the ordered pairs keep the pair universe)
+EXTRA_NUM = [10 ** 400, -10 ** 400, 2 ** 1024, 2 ** 53 + 1, float(2 ** 53), 1e308, -1e308, 5e-324, -0.0,
+             [10 ** 400], {"a": 10 ** 400}, [2 ** 1024, 2 ** 1024], {"a": -10 ** 400, "b": 1e308}]
 
 
 def verdict(d, S, x):
@@ -50,6 +57,8 @@ def disagrees(d, S, x):
 def run_unit(unit, ctx):
     d = unit[0]
     U = _e1.get_universe(ctx.tier, unit[1])
+    if unit[1] != "pairs":
+        U = list(U) + EXTRA_NUM
     ev = nt = rejected = unsupported = nschemas = 0
     viol, samples = [], []
     outcomes = {}
